@@ -135,7 +135,7 @@ func (s *Solver) roundTrip(text string) ([]string, error) {
 		return nil, err
 	}
 	var res []string
-	deadline := time.After(time.Duration(s.TimeoutMs)*time.Millisecond*2 + 5*time.Second)
+	deadline := time.After(time.Duration(s.TimeoutMs)*time.Millisecond + 4*time.Second)
 	for {
 		select {
 		case l, ok := <-s.lines:
